@@ -1,6 +1,7 @@
 package main
 
 import (
+	"go/constant"
 	"fmt"
 	"go/token"
 	"go/types"
@@ -223,9 +224,27 @@ func (x *Exec) convert(s *State, in *ssa.Convert) {
 	case isFloat(from) && isFloat(to):
 		fr.env[in] = v
 	case isString(to) && isInt(from):
-		// string(rune)
-		r := x.fresh(s, "runestr", SStr)
+		// string(rune): the UTF-8 encoding, a function of the rune; for every one-character string
+		// constant of this function it is that constant exactly when the rune is that character
+		if v.T.Sort != SBV32 {
+			r := x.fresh(s, "runestr", SStr)
+			s.assume(And(x.le(x.ilit(1), x.strLenRaw(r)), x.le(x.strLenRaw(r), x.ilit(4))))
+			fr.env[in] = scalar(r)
+			break
+		}
+		r := x.define(s, "runestr", mk(SStr, "runestr", v.T))
 		s.assume(And(x.le(x.ilit(1), x.strLenRaw(r)), x.le(x.strLenRaw(r), x.ilit(4))))
+		for _, b := range in.Parent().Blocks {
+			for _, ins := range b.Instrs {
+				for _, op := range ins.Operands(nil) {
+					if c, ok := (*op).(*ssa.Const); ok && c.Value != nil && c.Value.Kind() == constant.String {
+						if txt := constant.StringVal(c.Value); len(txt) == 1 && txt[0] < 0x80 {
+							s.assume(mk(SBool, "=", Eq(r, x.strLit(s, txt)), Eq(v.T, BVLit(uint64(txt[0]), 32))))
+						}
+					}
+				}
+			}
+		}
 		fr.env[in] = scalar(r)
 	case isString(to) && isSlice(from), isString(from) && isSlice(to), isString(from) && isString(to):
 		if isString(from) && isString(to) {
